@@ -36,6 +36,15 @@ def register_command(subparsers):
     parser.set_defaults(func=main)
 
 
+def _display_path(path: pathlib.Path, cwd: pathlib.Path) -> str:
+    # Print a path relative to the current working directory, if possible
+    # (Conductor may be invoked from any directory inside the project).
+    try:
+        return str(path.relative_to(cwd))
+    except ValueError:
+        return str(path)
+
+
 @cli_command
 def main(args):
     ctx = Context.from_cwd()
@@ -77,9 +86,9 @@ def main(args):
 
         if args.dry_run:
             for exp_path in to_delete:
-                print("Would delete", str(exp_path.relative_to(cwd)))
+                print("Would delete", _display_path(exp_path, cwd))
         else:
             for exp_path in to_delete:
                 if args.verbose:
-                    print("Deleting", str(exp_path.relative_to(cwd)))
+                    print("Deleting", _display_path(exp_path, cwd))
                 shutil.rmtree(exp_path, ignore_errors=True)
